@@ -352,6 +352,9 @@ func (ex *Exec) globalConst(pi *PtrInfo, st *State) (Val, bool) {
 		}
 		return Val{T: et, L: []string{ref}}, true
 	case *ssa.Slice:
+		if _, _, ok := sliceLiteral(v); !ok {
+			return ex.literalSliceHeader(v, et, full)
+		}
 		if vals, elemT, ok := sliceLiteral(v); ok {
 			ref := "garr!" + sanitize(full)
 			if _, seen := ex.declared[ref]; !seen {
@@ -367,15 +370,15 @@ func (ex *Exec) globalConst(pi *PtrInfo, st *State) (Val, bool) {
 				case *ssa.UnOp:
 					gg, ok := c.X.(*ssa.Global)
 					if !ok {
-						return Val{}, false
+						return ex.literalSliceHeader(v, et, full)
 					}
 					gv, ok := ex.globalConst(&PtrInfo{Kind: pkGlobal, Glob: gg, Root: gg.Type().Underlying().(*types.Pointer).Elem()}, st)
 					if !ok {
-						return Val{}, false
+						return ex.literalSliceHeader(v, et, full)
 					}
 					cv = gv
 				default:
-					return Val{}, false
+					return ex.literalSliceHeader(v, et, full)
 				}
 				got := ex.load(st, elemPtr(elemT, ref, num(int64(i))))
 				for j := range got.L {
@@ -445,4 +448,23 @@ func sliceLiteral(s *ssa.Slice) ([]ssa.Value, types.Type, bool) {
 // nonNilConstructors: library constructors whose result is never nil.
 var nonNilConstructors = map[string]bool{
 	"github.com/patrickmn/go-cache.New": true,
+}
+
+// literalSliceHeader: a slice literal built at init (var x = []T{...}): the header is stable and its length is the
+// literal's; the elements are left unconstrained.
+func (ex *Exec) literalSliceHeader(v *ssa.Slice, et types.Type, full string) (Val, bool) {
+	if al, ok := v.X.(*ssa.Alloc); ok && v.Low == nil && v.High == nil && v.Max == nil {
+		if at, ok := al.Type().Underlying().(*types.Pointer).Elem().Underlying().(*types.Array); ok {
+			if _, isSl := et.Underlying().(*types.Slice); isSl {
+				name := "gval!" + sanitize(full) + "!arr"
+				if _, seen := ex.declared[name]; !seen {
+					ex.declare(name, sInt)
+					ex.preAssume = append(ex.preAssume, and(app("<=", "1", name), app("<=", name, "top!0")))
+				}
+				n := num(at.Len())
+				return Val{T: et, L: []string{name, "0", n, n}}, true
+			}
+		}
+	}
+	return Val{}, false
 }
